@@ -1352,11 +1352,11 @@ func (w *Writer) writeBinaryExpression(e ir.ExprBinary) error {
 			_, rightIsMatrix := rightType.(ir.MatrixType)
 			if leftIsMatrix || rightIsMatrix {
 				w.Out.WriteString("mul(")
-				if err := w.writeExpression(e.Right); err != nil {
+				if err := w.writeBinaryOperand(e.Right); err != nil {
 					return fmt.Errorf("binary right: %w", err)
 				}
 				w.Out.WriteString(", ")
-				if err := w.writeExpression(e.Left); err != nil {
+				if err := w.writeBinaryOperand(e.Left); err != nil {
 					return fmt.Errorf("binary left: %w", err)
 				}
 				w.Out.WriteString(")")
@@ -1365,11 +1365,11 @@ func (w *Writer) writeBinaryExpression(e ir.ExprBinary) error {
 		}
 
 		w.Out.WriteString("asint(asuint(")
-		if err := w.writeExpression(e.Left); err != nil {
+		if err := w.writeBinaryOperand(e.Left); err != nil {
 			return fmt.Errorf("binary left: %w", err)
 		}
 		fmt.Fprintf(&w.Out, ") %s asuint(", opStr)
-		if err := w.writeExpression(e.Right); err != nil {
+		if err := w.writeBinaryOperand(e.Right); err != nil {
 			return fmt.Errorf("binary right: %w", err)
 		}
 		w.Out.WriteString("))")
@@ -1392,11 +1392,11 @@ func (w *Writer) writeBinaryExpression(e ir.ExprBinary) error {
 		_, rightIsMatrix := rightType.(ir.MatrixType)
 		if leftIsMatrix || rightIsMatrix {
 			w.Out.WriteString("mul(")
-			if err := w.writeExpression(e.Right); err != nil {
+			if err := w.writeBinaryOperand(e.Right); err != nil {
 				return fmt.Errorf("binary right: %w", err)
 			}
 			w.Out.WriteString(", ")
-			if err := w.writeExpression(e.Left); err != nil {
+			if err := w.writeBinaryOperand(e.Left); err != nil {
 				return fmt.Errorf("binary left: %w", err)
 			}
 			w.Out.WriteString(")")
@@ -1407,11 +1407,11 @@ func (w *Writer) writeBinaryExpression(e ir.ExprBinary) error {
 		// Integer division uses naga_div for safety (matches Rust naga)
 		if w.isIntegerBinaryOp(e) {
 			fmt.Fprintf(&w.Out, "%s(", NagaDivFunction)
-			if err := w.writeExpression(e.Left); err != nil {
+			if err := w.writeBinaryOperand(e.Left); err != nil {
 				return fmt.Errorf("binary left: %w", err)
 			}
 			w.Out.WriteString(", ")
-			if err := w.writeExpression(e.Right); err != nil {
+			if err := w.writeBinaryOperand(e.Right); err != nil {
 				return fmt.Errorf("binary right: %w", err)
 			}
 			w.Out.WriteByte(')')
@@ -1422,11 +1422,11 @@ func (w *Writer) writeBinaryExpression(e ir.ExprBinary) error {
 		// Integer/float modulo uses naga_mod for safety (matches Rust naga)
 		if w.isIntOrFloatBinaryOp(e) {
 			fmt.Fprintf(&w.Out, "%s(", NagaModFunction)
-			if err := w.writeExpression(e.Left); err != nil {
+			if err := w.writeBinaryOperand(e.Left); err != nil {
 				return fmt.Errorf("binary left: %w", err)
 			}
 			w.Out.WriteString(", ")
-			if err := w.writeExpression(e.Right); err != nil {
+			if err := w.writeBinaryOperand(e.Right); err != nil {
 				return fmt.Errorf("binary right: %w", err)
 			}
 			w.Out.WriteByte(')')
@@ -1464,14 +1464,36 @@ func (w *Writer) writeBinaryExpression(e ir.ExprBinary) error {
 	}
 
 	w.Out.WriteByte('(')
-	if err := w.writeExpression(e.Left); err != nil {
+	if err := w.writeBinaryOperand(e.Left); err != nil {
 		return fmt.Errorf("binary left: %w", err)
 	}
 	fmt.Fprintf(&w.Out, " %s ", op)
-	if err := w.writeExpression(e.Right); err != nil {
+	if err := w.writeBinaryOperand(e.Right); err != nil {
 		return fmt.Errorf("binary right: %w", err)
 	}
 	w.Out.WriteByte(')')
+	return nil
+}
+
+// writeBinaryOperand writes an operand of a binary operator. The pack4xU8 / pack4xU8Clamp
+// polyfill is a bare chain of `|` (the signed variants are wrapped in uint(...)): written
+// inline next to an operator that binds tighter it needs its own parentheses.
+func (w *Writer) writeBinaryOperand(handle ir.ExpressionHandle) error {
+	bare := false
+	if _, named := w.namedExpressions[handle]; !named && w.currentFunction != nil && int(handle) < len(w.currentFunction.Expressions) {
+		if m, ok := w.currentFunction.Expressions[handle].Kind.(ir.ExprMath); ok {
+			bare = m.Fun == ir.MathPack4xU8 || m.Fun == ir.MathPack4xU8Clamp
+		}
+	}
+	if bare {
+		w.Out.WriteByte('(')
+	}
+	if err := w.writeExpression(handle); err != nil {
+		return err
+	}
+	if bare {
+		w.Out.WriteByte(')')
+	}
 	return nil
 }
 
